@@ -73,7 +73,12 @@ def _run_case(case, ctx):
         X = data["X"]
         order, shp = X.ndim, list(X.shape)
         R = int(rs.randint(1, 4))
-        wk = gen.choice(rs, ["ones", "positive", "positive"] if (nonneg or algo == "constrained_parafac") else ["ones", "positive", "negative", "mixed"])
+        # negative weights are legal for every algorithm as far as the zero-budget clause goes ("whatever its weights");
+        # sweeps of the non-negative algorithms are only run from non-negative starts (their domain)
+        wk = gen.choice(rs, ["ones", "positive", "positive", "negative-zero-budget-only", "mixed-zero-budget-only"] if (nonneg or algo == "constrained_parafac")
+                        else ["ones", "positive", "negative", "mixed"])
+        zero_only = wk.endswith("zero-budget-only")
+        wk = wk.replace("-zero-budget-only", "")
         w = {"ones": np.ones(R), "positive": rs.uniform(0.3, 3, R), "negative": -rs.uniform(0.3, 3, R), "mixed": rs.uniform(0.3, 3, R) * rs.choice([-1, 1], R)}[wk]
         fs = [(rs.uniform(0.1, 1, (s, R)) if nonneg else rs.standard_normal((s, R))) for s in shp]
         form = gen.choice(rs, ["tuple", "list", "wrapper"])
@@ -102,6 +107,8 @@ def _run_case(case, ctx):
         if not _close(d0, init_dense, scale, eps):
             viol("zero-budget", "weights-" + wk, "n_iter_max=0 returns a decomposition representing a different tensor than the init (max diff %.3g, scale %.3g)" % (
                 float(np.nanmax(np.abs(ref.hp(d0) - init_dense))), scale), desc)
+            return
+        if zero_only:
             return
         # (absorbed)
         if wk != "ones":
@@ -164,20 +171,24 @@ def _run_case(case, ctx):
         core = rs.standard_normal(rk)
         fs = [gen.orth(rs, s, r) for s, r in zip(shp, rk)]
         nfix = int(rs.randint(1, order + 1))
-        fixed = sorted(rs.choice(order, size=nfix, replace=False).tolist())
+        fixed = rs.choice(order, size=nfix, replace=False).tolist()   # in any order
+        if rs.rand() < 0.4:
+            fixed = sorted(fixed)
+        if rs.rand() < 0.3:
+            fixed = tuple(fixed)
         sweeps = int(rs.randint(0, 4))
         form = gen.choice(rs, ["tuple", "wrapper"])
         init = (core.copy(), [f.copy() for f in fs])
         if form == "wrapper":
             init = TuckerTensor(init)
         all_fixed = len(fixed) == order
-        desc = {"algo": algo, "shape": shp, "rank": rk, "fixed": fixed, "sweeps": sweeps, "form": form}
+        desc = {"algo": algo, "shape": shp, "rank": rk, "fixed": list(fixed), "fixed_sorted": list(fixed) == sorted(fixed), "sweeps": sweeps, "form": form}
         ctx.nontriv(desc)
         ctx.sample({"case": desc}, 3)
         init_dense, absb, _ = ref.tucker_dense(core, fs)
         scale = float(np.max(absb)) + 1e-300
         try:
-            out = D.tucker(X, rk, fixed_factors=list(fixed), n_iter_max=sweeps, init=init, tol=0, random_state=seed)
+            out = D.tucker(X, rk, fixed_factors=(list(fixed) if isinstance(fixed, list) else fixed), n_iter_max=sweeps, init=init, tol=0, random_state=seed)
         except Exception as e:  # noqa
             viol("fixed-raises-%s" % type(e).__name__, "all-fixed" if all_fixed else "some-fixed", "tucker(fixed_factors=%s) raised %s: %s" % (fixed, type(e).__name__, str(e)[:150]), desc)
             return
